@@ -53,6 +53,9 @@ def _presets(op, n, tier):
             vecs = [list(v) for v in itertools.product(ws, repeat=n)]
         else:
             vecs = [[1] * n, [2, 0.5, 1, 1, 3][:n], [0.5, 2, -1, 1, 1][:n], [1, 2, 3, 4, 5][:n], [1, 1, 0.25, 2, 2][:n]]
+        # weights that add up to ALMOST one (a third each written to five places, ...): the mean still divides by their sum
+        near = {1: [[0.99999], [1.00001]], 2: [[0.5, 0.50001], [0.3, 0.69999]], 3: [[0.33333] * 3, [0.5, 0.25, 0.25001]]}.get(n, [[0.2] * (n - 1) + [0.2 + 1e-5 * n]])
+        vecs = vecs + near
         return [{"Weights": v} for v in vecs]
     return [{}]
 
@@ -165,12 +168,13 @@ def _viacmd(case):
     sample = None
     lat_u = [F(0), F(1), F(3), F(5), M]
     lat_s = [F(-2), F(0), F(1), F(5), M]
+    lat_f = [F(-5, 2), F(0), F(1, 2), F(11, 4), M]  # (fractions: a float next to an unsigned input keeps them)
     for dts in itertools.product(("int", "float", "uint"), repeat=n):
         if "uint" not in dts:
             continue
         if n == 3 and set(dts) != {"uint"}:
             continue
-        lats = [lat_u if d == "uint" else lat_s for d in dts]
+        lats = [lat_u if d == "uint" else lat_f if d == "float" else lat_s for d in dts]
         tuples = list(itertools.product(*lats))
         cols = [[t[i] for t in tuples] for i in range(n)]
         for params in _presets(op, n, "quick")[:6]:
